@@ -19,7 +19,9 @@
          (finding: the field can then not be selected)
      15  a path going on below a struct star was accepted (finding: typed by the first field)
      16  a well-typed conflict-free path list was rejected
-     17  JSON round trip changes answers: the string key "*" is read back as the any-star   *)
+     17  JSON round trip changes answers: the string key "*" is read back as the any-star
+     18  bytes returned by Marshal / MarshalJSON changed (or read back differently) after later
+         operations on other masks: the JSON text is not stable over a history              *)
 From Coq Require Import List Bool ZArith NArith.
 From Coq.Strings Require Import Byte.
 From Verif Require Import Base.Bytes Mask.Path Mask.Desc Mask.Trie Mask.Json Mask.Spec.
@@ -44,6 +46,12 @@ Inductive case :=
          (un_ok : bool) (un_ob_opt : option (list obs)) (* Unmarshal(json) and the same probes; None: same answers *)
          (vars : list variant)                         (* permutations / regroupings *)
 | CTree (t : jtree) (text : bytes) (ok : bool) (probes : list (list qkey)) (ob : list obs) (again : bytes)
+| CHist (env : senv) (d : ty)
+        (masks : list (bool * list bytes))            (* mode and paths of mask 0, 1, .. (all built) *)
+        (probes : list (list qkey))
+        (texts : list (nat * bytes * bytes))          (* mask, the bytes when Marshal/MarshalJSON returned them, the same slice at the end *)
+        (reads : list (nat * bool * bool * list obs * list obs))
+                                                      (* mask; UnmarshalJSON of the kept slice / of the copy: ok, answers *)
 | CPanic
 | CHang.
 
@@ -266,11 +274,40 @@ Definition check_tree (t : jtree) (text : bytes) (ok : bool) (probes : list (lis
   | Err _ => if ok then [1%N] else []
   end.
 
+Definition strs_of_paths (paths : list bytes) : list bytes :=
+  flat_map (fun t => match t with TStr x => [x] | _ => [] end) (List.concat (map tokenize paths)).
+
+Definition check_hist (env : senv) (d : ty) (masks : list (bool * list bytes)) (probes : list (list qkey))
+  (texts : list (nat * bytes * bytes)) (reads : list (nat * bool * bool * list obs * list obs)) : list N :=
+  let models := map (fun bp => new_mask env d (fst bp) (snd bp)) masks in
+  if existsb is_fuel models || existsb (fun bp => existsb has_out (map tokenize (snd bp))) masks then [9%N] else
+  let modelled (i : nat) := match nth_error masks i with Some bp => forallb quotable (strs_of_paths (snd bp)) | None => false end in
+  let safe (i : nat) := match nth_error masks i with Some bp => forallb (forallb json_safe_byte) (strs_of_paths (snd bp)) | None => false end in
+  flat_map (fun t => let '(i, ret, fin) := t in
+     (match nth_error models i with
+      | Some (Ok m) => if modelled i then (if beqb (to_json_text m) ret then [] else [1%N]) else []
+      | Some _ => [1%N]
+      | None => [9%N]
+      end) ++
+     (if beqb ret fin then [] else [18%N])) texts ++
+  flat_map (fun rd => let '(i, okr, okc, obr, obc) := rd in
+     (if Bool.eqb okr okc && list_eqb obs_eqb obr obc then [] else [18%N]) ++
+     (match nth_error models i with
+      | Some (Ok m) =>
+          match of_json (to_json m) with
+          | Ok m2 => if okc then (if probes_agree m2 probes obc then [] else [1%N]) else (if safe i then [1%N] else [])
+          | _ => if okc then [1%N] else []
+          end
+      | Some _ => [1%N]
+      | None => [9%N]
+      end)) reads.
+
 Definition check (c : case) : list N :=
   match c with
   | CPaths env d black paths gram ok probes ob gpaths json un_ok un_ob_opt vars =>
       check_paths env d black paths gram ok probes ob gpaths json un_ok un_ob_opt vars
   | CTree t text ok probes ob again => check_tree t text ok probes ob again
+  | CHist env d masks probes texts reads => check_hist env d masks probes texts reads
   | CPanic => [12%N]
   | CHang => [13%N]
   end.
